@@ -345,11 +345,31 @@ func c15Judge(c *fw.Ctx, cs c15Case) {
 			case len(localOnly) > 0 && len(remoteOnly) == 0:
 				// local ahead: pushed together with the refs its unskipped entries name
 				if err != nil {
-					if cs.LocalRefs != "at-entry" {
-						c.Count("sync:push-refused-refs-not-at-entry", 1)
+					// The statement does not promise that a push succeeds (git refuses
+					// e.g. a recorded rewind of a branch); it promises that entries are
+					// not published without the references they name.
+					if sameIDs(remoteAfter, remoteLog) {
+						if cs.LocalRefs != "at-entry" {
+							c.Count("sync:push-refused-refs-not-at-entry", 1)
+						} else {
+							c.Count("sync:push-refused-nothing-published", 1)
+						}
 						return
 					}
-					c.Violation("push-failed", map[string]string{"op": cs.Op, "error": trunc(err.Error(), 40)}, "local is ahead and refs are at their entries, sync failed: "+err.Error(), cs)
+					skipped := skippedSet(remoteAfter)
+					latest := map[string]string{}
+					for _, e := range remoteAfter[len(remoteLog):] {
+						if e.Kind == "reference" && !skipped[e.ID] {
+							latest[e.Ref] = e.Target
+						}
+					}
+					for ref, tgt := range latest {
+						if remoteRefsAfter[ref] != tgt {
+							c.Violation("entries-published-without-their-refs", map[string]string{"op": cs.Op, "push": "failed-partially"}, fmt.Sprintf("sync failed (%s) yet the remote log gained %d entries; remote %s is %q, the published unskipped entry records %s", trunc(err.Error(), 60), len(remoteAfter)-len(remoteLog), ref, remoteRefsAfter[ref], tgt), cs)
+							return
+						}
+					}
+					c.Count("sync:push-error-but-consistent", 1)
 					return
 				}
 				if !sameIDs(remoteAfter, localBefore) {
@@ -464,6 +484,26 @@ func runC15(c *fw.Ctx) {
 		c15Judge(c, cs)
 		if i%4 == 0 {
 			c.Sample(cs)
+		}
+	}
+	// directed: the local-only suffix records a rewind of a branch (a push that
+	// git refuses as non-fast-forward) next to, or without, ordinary updates -
+	// nothing may be published unless the references go with it
+	idx := 0
+	for _, op := range []string{"sync", "sync-overwrite"} {
+		for _, local := range [][]c15Entry{
+			{{Kind: "ref", Ref: "refs/heads/a", Commit: 0}},
+			{{Kind: "ref", Ref: "refs/heads/main", Commit: 1}, {Kind: "ref", Ref: "refs/heads/a", Commit: 0}},
+			{{Kind: "ref", Ref: "refs/heads/a", Commit: 0}, {Kind: "ref", Ref: "refs/heads/b", Commit: 1}},
+			{{Kind: "ref", Ref: "refs/heads/a", Commit: 2}, {Kind: "ref", Ref: "refs/heads/main", Commit: 1}}, // fast-forwards only
+		} {
+			if c.Mine(idx) {
+				c15Judge(c, c15Case{Op: op, LocalRefs: "at-entry",
+					// commits 0 <- 1 <- 2 form a chain (3 is unrelated)
+					Shared: []c15Entry{{Kind: "ref", Ref: "refs/heads/a", Commit: 1}, {Kind: "ref", Ref: "refs/heads/main", Commit: 0}},
+					Local:  local})
+			}
+			idx++
 		}
 	}
 }
